@@ -188,6 +188,9 @@ func Pack(d Doc) []byte {
 	put(g, 0, 3, "850")
 	put(g, 3, 8, fmt.Sprintf("STL%d.01", d.Fps))
 	g[11] = byte('0' + d.Dsc)
+	if d.Dsc < 0 {
+		g[11] = ' ' // undefined display standard
+	}
 	put(g, 12, 2, "00")
 	if l, ok := d.Meta["lang"]; ok {
 		put(g, 14, 2, langCode[l])
@@ -267,6 +270,9 @@ func Unpack(data []byte) (Doc, error) {
 		d.Fps = -1
 	}
 	d.Dsc = int(g[11]) - '0'
+	if g[11] == ' ' {
+		d.Dsc = -1
+	}
 	if l := trimField(g[14:16]); l != "" {
 		d.Meta["lang"] = rev(langCode, l)
 	}
@@ -338,6 +344,9 @@ func Build(g Truth, metaMode string) *astisub.Subtitles {
 	switch metaMode {
 	case "full":
 		m := &astisub.Metadata{Framerate: g.Fps, STLDisplayStandardCode: strconv.Itoa(g.Dsc), STLTimecodeStartOfProgramme: tcp}
+		if g.Dsc < 0 {
+			m.STLDisplayStandardCode = "" // what the reader returns for a blank (undefined) display standard code
+		}
 		cd := time.Date(2020, 1, 2, 0, 0, 0, 0, time.UTC)
 		rd := time.Date(2020, 3, 4, 0, 0, 0, 0, time.UTC)
 		m.STLCreationDate, m.STLRevisionDate = &cd, &rd
